@@ -75,7 +75,6 @@ package snowflake_server
 // acceptStreams is the one just accepted.
 //@ func (l *SnowflakeListener) acceptSessions(ln *kcp.Listener) (err error)
 //@   props C05, C18
-//@   flag nosafety
 //@   requires l != nil && ln != nil
 //@   loop 1 invariant true
 //
@@ -94,7 +93,6 @@ package snowflake_server
 //@ func turbotunnelMode(conn net.Conn, addr net.Addr, pconn *turbotunnel.QueuePacketConn) (err error)
 //@   requires addr != nil && conn != nil
 //@   assumes pconn != nil
-//@   flag nosafety
 //   The 8-byte ClientID prefix is read COMPLETELY (io.ReadFull on this carrier, into the whole array) before it is
 //   used: a carrier may deliver the prefix in several pieces.
 //@   props C18, C05, C09
